@@ -13,6 +13,8 @@ pub mod c13;
 pub mod c14;
 pub mod c15;
 pub mod c18;
+#[cfg(feature = "native")]
+pub mod c19;
 
 pub fn lookup(id: &str) -> Option<Box<dyn Check>> {
     match id {
@@ -24,6 +26,8 @@ pub fn lookup(id: &str) -> Option<Box<dyn Check>> {
         "C13" => Some(Box::new(c13::C13)),
         "C14" => Some(Box::new(c14::C14)),
         "C15" => Some(Box::new(c15::C15)),
+        #[cfg(feature = "native")]
+        "C19" => Some(Box::new(c19::C19)),
         "C18" => Some(Box::new(c18::C18)),
         _ => None,
     }
